@@ -388,7 +388,7 @@ Proof.
   - destruct H as [Ha Hb]. rewrite IHa, IHb by assumption. reflexivity.
   - destruct H as [Ha Hb]. rewrite IHa, IHb by assumption. reflexivity.
   - destruct t; try reflexivity. cbn [mask_test]. f_equal. f_equal.
-    change 4095 with (N.ones 12). rewrite N.land_ones. apply N.mod_small. exact H.
+    change 4294967295 with (N.ones 32). rewrite N.land_ones. apply N.mod_small. exact H.
 Qed.
 
 Theorem read_ser_exact : forall e, perm_bits_small e -> read_expr (toks (ser_expr e)) = Some e.
@@ -396,5 +396,5 @@ Proof. intros e H. rewrite read_ser, mask_small by exact H. reflexivity. Qed.
 
 (** the truncation is real: a tree with a wider -perm value does not come back as it was *)
 Lemma read_ser_truncates :
-  read_expr (toks (ser_expr (ETest (TPerm PAny 4096)))) = Some (ETest (TPerm PAny 0)).
+  read_expr (toks (ser_expr (ETest (TPerm PAny 4294967296)))) = Some (ETest (TPerm PAny 0)).
 Proof. vm_compute. reflexivity. Qed.
